@@ -100,6 +100,12 @@ func (*writer) SetStates(context.Context, uint64, []base.StateMergeValue, base.O
 func (w *writer) Manifest(context.Context, base.Manifest) (base.Manifest, error) {
 	w.r.nap()
 
+	// forced schedules: "the processor is still processing" (ProposalProcessors.l is held meanwhile)
+	// until the controller opens the gate of this proposal
+	if g := w.r.gates[w.p.f]; g != nil {
+		<-g
+	}
+
 	switch w.p.beh {
 	case "err":
 		return nil, errors.Errorf("verif: manifest of %s fails", w.p.f)
@@ -148,11 +154,19 @@ type runner struct {
 	jitter bool
 	pps    *isaac.ProposalProcessors
 	ids    int
+	gates  map[string]chan struct{} // forced schedules only: proposal -> gate of its processor
+	events []ev                     // forced schedules only: the events of this schedule
 }
 
 func (r *runner) emit(e ev) {
 	r.mu.Lock()
 	defer r.mu.Unlock()
+
+	if r.gates != nil {
+		r.events = append(r.events, e)
+
+		return
+	}
 
 	r.out.Emit(e)
 }
@@ -181,6 +195,13 @@ func newRunner(out *h.Out, seed int64, jitter bool) (*runner, error) {
 	}
 
 	r := &runner{out: out, rng: rand.New(rand.NewSource(seed)), jitter: jitter}
+
+	if out == nil { // forced schedules (force.go): every processor parks at the gate of its proposal
+		r.gates = map[string]chan struct{}{}
+		for _, p := range props {
+			r.gates[p.f] = make(chan struct{})
+		}
+	}
 
 	r.pps = isaac.NewProposalProcessors(
 		func(pr base.ProposalSignFact, previous base.Manifest) (isaac.ProposalProcessor, error) {
@@ -261,8 +282,9 @@ func class(err error) string {
 	}
 }
 
-func (r *runner) do(o op) {
-	id := r.newID()
+func (r *runner) do(o op) { r.doID(r.newID(), o) }
+
+func (r *runner) doID(id int, o op) {
 
 	switch o.kind {
 	case "P":
@@ -385,8 +407,12 @@ func pick(rng *rand.Rand, al []op, play map[string]bool) op {
 
 // vh C11 record --mode exhaustive --depth D --out f | --mode random --num N --out f
 func run(args []string) error {
+	if len(args) > 0 && args[0] == "force" {
+		return force(h.Flags(args[1:]))
+	}
+
 	if len(args) < 1 || args[0] != "record" {
-		return fmt.Errorf("usage: C11 record --mode exhaustive|random ...")
+		return fmt.Errorf("usage: C11 record --mode exhaustive|random ... | C11 force --in f --out f")
 	}
 
 	fl := h.Flags(args[1:])
